@@ -248,6 +248,25 @@ func genC28(seed uint64) *Plan {
 					st.PathIDs = append(st.PathIDs, uint32(1+r.Intn(2)))
 				}
 			}
+			if st.Label == "announce" && r.Chance(0.25) {
+				// the same UPDATE withdraws as well: another prefix of the family, or (IPv4, classic
+				// encoding) the very prefix it announces - then the announcement is what holds
+				q := pick(r, pool)
+				if q.V6 == p.V6 && q != p {
+					st.Wd = append(st.Wd, q)
+				} else if !p.V6 {
+					st.Wd = append(st.Wd, p)
+				}
+				if pl.BMPPeers[pi].AddPath && !p.V6 {
+					for k := range st.Wd {
+						if st.Wd[k] == p {
+							st.WdIDs = append(st.WdIDs, st.PathIDs[0])
+						} else {
+							st.WdIDs = append(st.WdIDs, uint32(1+r.Intn(2)))
+						}
+					}
+				}
+			}
 			st.Chunks, st.ChunkGapUS = randChunks(r, 0.15)
 			pl.Steps = append(pl.Steps, st)
 		case "down":
@@ -390,11 +409,20 @@ func (o *c28Oracle) apply(w *World, i int, s *Step, kind string) {
 			}
 			nl = append(nl, NLRI{Prefix: pfx, PathID: id})
 		}
+		var wd []NLRI
 		if s.Label == "withdraw" {
 			u.Withdraw = nl
 		} else {
 			u.Announce = nl
 			u.Attrs = s.Attr.Attrs(s.V6)
+			for k, pfx := range s.Wd {
+				id := uint32(0)
+				if k < len(s.WdIDs) {
+					id = s.WdIDs[k]
+				}
+				wd = append(wd, NLRI{Prefix: pfx, PathID: id})
+			}
+			u.Withdraw = wd
 		}
 		o.bw.send(w, p.routeMonitoring(EncodeUpdate(u), post), s.Chunks, us(s.ChunkGapUS))
 		if mirrored {
@@ -403,6 +431,14 @@ func (o *c28Oracle) apply(w *World, i int, s *Step, kind string) {
 			w.Env.probe("bmp_route_ignored_by_config")
 		}
 		if o.up[s.Peer] && mirrored {
+			for _, n := range wd {
+				// withdrawn routes of a mixed UPDATE first; an announcement of the same NLRI wins
+				id := n.PathID
+				if !ap {
+					id = 0
+				}
+				delete(o.model[s.Peer], viewKey{n.Prefix, id})
+			}
 			for _, n := range nl {
 				id := n.PathID
 				if !ap {
